@@ -179,3 +179,33 @@ func VP_C02_Corrupt() {
 	}
 	vpReach("end")
 }
+
+// VP_C02_Many: a stream of `count` short records (far more text than any
+// buffer, block or slab of 64 KiB holds), every record kept by the consumer
+// until the end of the stream: records handed out earlier are not disturbed by
+// later ones. Contents are concrete and pairwise different except for three
+// symbolic bytes (first record, one in the middle, last record).
+func VP_C02_Many() {
+	count := vpCase("count")
+	var w vpBuf
+	var given []vpRec
+	for r := 0; r < count; r++ {
+		n := 30 + (r*7)%41
+		f := &Fastq{Name: []byte("read" + vpNum(r)), Sequence: make([]byte, n), Quals: make([]byte, n)}
+		for i := 0; i < n; i++ {
+			f.Sequence[i] = "ACGT"[(r+i*i)%4]
+			f.Quals[i] = byte('!' + (r*3+i)%60)
+		}
+		if r == 0 || r == count/2 || r == count-1 {
+			c := vpByte("b" + vpNum(r))
+			vpAssume(c != '\n' && c != '\r')
+			f.Sequence[n/2] = c
+		}
+		given = append(given, vpRec{name: append([]byte(nil), f.Name...), seq: append([]byte(nil), f.Sequence...), qual: append([]byte(nil), f.Quals...)})
+		vpAssert(f.Write(&w) == nil, "Write succeeds")
+	}
+	got := vpCollect(vpOneShot(w.b), count+3)
+	vpAssert(vpSameRecs(got, given), "Reader yields exactly the written records in order, each still intact at the end of the stream")
+	vpObserveInt("bytes", len(w.b))
+	vpReach("end")
+}
